@@ -54,7 +54,8 @@ def build(st, mk=None):
         if k == "doc":
             objs[h] = odml.Document()
         elif k == "sec":
-            objs[h] = odml.Section(name=conc_name(st["name"][h]), type="t")
+            # two types (the structural rules look at names only; same-named Sections of another type exist)
+            objs[h] = odml.Section(name=conc_name(st["name"][h]), type="t" if (h[1:].isdigit() and int(h[1:]) % 2) else "u")
         elif k == "prop":
             objs[h] = odml.Property(name=conc_name(st["name"][h]), values=[1])
         elif k == "other":
